@@ -1,7 +1,7 @@
 (* Model of the GenApi XML parser, genapi/src/parser/*.rs (after the "fix:" commits 70ffa75 and fb880c0).
 
    XML text -> tree is roxmltree's job and is taken as given: a document is a tree
-   [xml := Elem tag attrs children | Text chars | Comment chars]; strings are lists of Unicode scalar
+   [xml := Elem tag attrs children | Text chars | Comment chars | PI target data]; strings are lists of Unicode scalar
    values.  On trees the model follows the code step by step:
      - xml.rs: the child cursor ([peek] skips non-element nodes, [parse_if], [parse_while], [next_if],
        [next_text]), attribute lookup, [TextView::view] ([text_of]; the pinned version is [text_view_v0]);
@@ -202,7 +202,8 @@ Definition L_m1 : str := Eval vm_compute in s2l "-1".
 Inductive xml :=
 | Elem (tag : str) (attrs : list (str * str)) (children : list xml)
 | Text (s : str)
-| Comment (s : str).
+| Comment (s : str)
+| PI (target data : str).        (* processing instruction: like a comment, neither element nor text *)
 
 (* peek: the next element child (non-element nodes are skipped) and what follows it *)
 Fixpoint peek (c : list xml) : option (str * list (str * str) * list xml * list xml) :=
@@ -233,6 +234,7 @@ Definition text_view_v0 (ch : list xml) : outcome str :=
   | [] => Panic
   | [Text s] => Ok s
   | [Comment s] => Ok s
+  | [PI _ _] => Panic
   | [Elem _ _ (Text s :: _)] => Ok s
   | [Elem _ _ _] => Panic
   | _ => Ok (text_of ch)
